@@ -5,7 +5,6 @@ All statements are for every byte string (no validity or encoding hypothesis).
 -/
 import KlogV.Lemmas.Lines
 import KlogV.Props.Tables
-import KlogV.Props.GoTxt
 namespace KlogV.C08
 
 /-- Splitting a text into lines and writing each line out again (text plus line ending)
